@@ -634,6 +634,9 @@ def run_case(case):
 
         def notify(self, event):
             self.events.append((event.event_type.name, event.content))
+            if self.raise_on == event.event_type.name:
+                self.raise_on = None
+                raise RuntimeError("a subscriber of the statistic fails once")
             if event.event_type.name == "INITIALIZED_EVENT":
                 # the statistic announces that it has been reset: at this moment it reports no observations
                 st_ = event.content
@@ -643,6 +646,7 @@ def run_case(case):
                     self.at_init.append(("raises", type(e).__name__))
 
         at_init = []
+        raise_on = None
 
     out = Outcome()
     Rec.at_init = []
@@ -926,6 +930,24 @@ def _run_counter(out, case, stat, rec, feed, full_sub=False):
         nonlocal n, count, since, marker, nontrivial
         if rec is not None:
             del rec.events[:]
+        if rec is not None and full_sub and n == 2 and not marker:
+            # a subscriber of the counter fails once while the third observation is published: the observation is
+            # registered all the same, and later observations are published again
+            rec.raise_on = "N_EVENT"
+            try:
+                feed(x)
+            except RuntimeError:
+                pass
+            except Exception as e:                                # noqa: BLE001
+                out.fail("register-raises:counter:" + type(e).__name__, {"value": repr(x), "error": repr(e)})
+                return
+            rec.raise_on = None
+            n += 1
+            count += x
+            since += 1
+            out.label("subscriber-failed-once")
+            check("register while a subscriber failed")
+            return
         try:
             feed(x)
         except Exception as e:                                    # noqa: BLE001
